@@ -184,7 +184,7 @@ def replay(case, stats):
 def run(ctx):
     q = ctx.quick
     ctx.units("corpus-all-options", unit_corpus, [{}])
-    ctx.units("generated-streams", unit_stream, [{"n": 200 if q else 3000, "seed": ctx.seed, "shard": i} for i in range(4 if q else 16)], procs=16)
+    ctx.units("generated-streams", unit_stream, [{"n": 300 if q else 3000, "seed": ctx.seed, "shard": i} for i in range(8 if q else 16)], procs=16)
     ctx.rule = ("streams of 1..4 sources (valid, mutated, rejected, CRLF, BOM) written to files, loaded by SourceEvents and pushed through one GherkinEvents with each of the 8 option "
                 "combinations, or through scripts.generate_events.main in-process; oracle: envelope sequence per source = [source?][gherkinDocument?][pickle*] built from the reference "
                 "parser and reference compiler (fresh ids), compared after subtracting the id offset; only parseError envelopes for a rejected source; every envelope passes the "
